@@ -28,7 +28,18 @@ for f in ('bellatrix', 'capella', 'deneb'):
     EXTRA['eth2/beacon/%s:BeaconStateView.ProcessBlock' % f] = ['//@   assigns ghost(n_eng_notify), ghost(n_set_exec_header)']
 for k in ('eth2/beacon/common:StateTransition', 'eth2/beacon/common:PostSlotTransition'):
     EXTRA[k] = ['//@   assigns ghost(n_eng_notify), ghost(n_set_exec_header)']
-PROPS = {'eth2/beacon:StandardUpgradeableBeaconState.UpgradeMaybe': ' C14'}
+PROPS = {'eth2/beacon:StandardUpgradeableBeaconState.UpgradeMaybe': ' C14', 'eth2/beacon/common:ProcessHeader': ' C03'}
+# process_block_header's conditions (C03): slot, newer than the latest header, proposer index in range and expected, parent root, proposer not slashed
+PROPS['eth2/beacon/phase0:ProcessDeposits'] = ' C03'
+# process_operations: the block carries exactly min(MAX_DEPOSITS, eth1 deposit count - next deposit index) deposits
+EXTRA['eth2/beacon/phase0:ProcessDeposits'] = [
+    '//@   ensures c03_count: err == nil ==> !st_eth1_err(state) && !st_depidx_err(state) && len(ops) == min(spec.MAX_DEPOSITS, (st_eth1(state).DepositCount - st_depidx(state)) % 18446744073709551616)']
+EXTRA['eth2/beacon/common:ProcessHeader'] = [
+    '//@   ensures c03_slot: err == nil ==> !st_slot_err(state) && old(header.Slot) == st_slot(state)',
+    '//@   ensures c03_newer: err == nil ==> !st_latest_err(state) && old(st_latest(state).Slot) < old(header.Slot)',
+    '//@   ensures c03_proposer: err == nil ==> !st_vals_err(state) && reg_valid(st_vals(state), old(header.ProposerIndex)) && old(header.ProposerIndex) == expectedProposer',
+    '//@   ensures c03_parent: err == nil ==> old(header.ParentRoot) == header_root(old(*st_latest(state)))',
+    '//@   ensures c03_not_slashed: err == nil ==> !v_slashed(reg_val(st_vals(state), old(header.ProposerIndex)))']
 EXTRA['eth2/beacon:StandardUpgradeableBeaconState.UpgradeMaybe'] = [
     '//@   requires s != nil && spec != nil',
     '//@   assigns s.BeaconState',
@@ -48,6 +59,27 @@ EXTRA['eth2/beacon/deneb:ProcessExecutionPayload'] = [
     '//@     invariant len(versionedHashes) == rangeindex + 1 && n_eng_notify == old(n_eng_notify) && n_set_exec_header == old(n_set_exec_header)',
     '//@     invariant forall i :: {versionedHashes[i]} 0 <= i && i <= rangeindex ==> versionedHashes[i] == kzg_vhash(body.BlobKZGCommitments[i])']
 
+PROPS['eth2/beacon/common:PostSlotTransition'] = ' C03'
+PROPS['eth2/beacon/common:ProcessSlots'] = ' C03'
+# the block is for the state's slot and (when asked to validate) carries the proposer's signature under the state's current fork version
+EXTRA['eth2/beacon/common:PostSlotTransition'] += [
+    '//@   ensures c03_slot: err == nil ==> !st_slot_err(state) && st_slot(state) == old(benv.Slot)',
+    '//@   ensures c03_reads: validateResult && err == nil ==> !st_forkdata_err(state) && !st_gvr_err(state) && !epc_proposer_err(epc, old(benv.Slot))',
+    '//@   ensures c03_signature: old(benv != nil && epc != nil && epc.ValidatorPubkeyCache != nil && (forall r PcPtr :: {pctrig(r)} pctrig(r) && alloc(r) ==> pc_local(r.pub2idx, r.idx2pub, r.trustedParentCount) && pc_chain(r.parent, r, r.trustedParentCount, r.parent.trustedParentCount, len(r.parent.idx2pub))) && (forall r PcPtr :: {held(r.rwLock)} held(r.rwLock) == 0)) && validateResult && err == nil ==> (exists pk Pub48T :: block_sig_ok(old(benv.ProposerIndex), epc_proposer(epc, old(benv.Slot)), old(benv.ForkDigest), old(benv.BlockRoot), old(benv.Signature), pk, DOMAIN_BEACON_PROPOSER, st_forkdata(state).CurrentVersion, st_gvr(state)))']
+# process_slots refuses a target slot that is not after the state's slot
+EXTRA['eth2/beacon/common:ProcessSlots'] += [
+    '//@   ensures c03_forward: err == nil ==> !st_slot_err(state) && st_slot(state) < slot']
+# process_execution_payload's consistency checks (C03): parent hash (bellatrix: once the merge is complete), prev_randao, timestamp
+for f in ('bellatrix', 'capella', 'deneb'):
+    PROPS['eth2/beacon/%s:ProcessExecutionPayload' % f] = ' C03'
+    pl = 'body.ExecutionPayload' if f == 'deneb' else '*executionPayload'
+    plf = 'body.ExecutionPayload' if f == 'deneb' else 'executionPayload'
+    ex = [
+        '//@   ensures c03_randao: spec != nil && spec.SLOTS_PER_EPOCH != 0 && err == nil ==> !st_slot_err(state) && !st_mixes_err(state) && old(%s.PrevRandao) == mix_at(st_mixes(state), st_slot(state) / spec.SLOTS_PER_EPOCH)' % plf,
+        '//@   ensures c03_timestamp: spec != nil && spec.SECONDS_PER_SLOT != 0 && err == nil ==> !st_gentime_err(state) && old(%s.Timestamp) == st_slot(state) * spec.SECONDS_PER_SLOT + st_gentime(state)' % plf]
+    if f != 'bellatrix':
+        ex.append('//@   ensures c03_parent: err == nil ==> !st_exhdr_err_%s(state) && !exhdr_raw_err_%s(st_exhdr_%s(state)) && old(%s.ParentHash) == old(exhdr_raw_%s(st_exhdr_%s(state)).BlockHash)' % (f, f, f, plf, f, f))
+    EXTRA['eth2/beacon/%s:ProcessExecutionPayload' % f] += ex
 sig = re.compile(r'^func (\((\w+) (\*?)(\w+)\) )?(\w+)\((.*)\) (.*) \{$')
 out = collections.defaultdict(list)
 for root, _, files in os.walk(os.path.join(REPO, 'eth2/beacon')):
